@@ -48,7 +48,10 @@ static int closed(const struct cfg *c)
 	if (!IMP(x & (B(5) | B(6) | B(7)), (x & B(2)) && (b & C7B_AVX512F))) return 0;
 	if (!IMP(x & B(2), (x & B(1)) && (e & C1_AVX))) return 0;
 	if (!IMP(x, e & C1_OSXSAVE)) return 0;
-	if (!IMP(avoton, (e & C1_SSE42) && (e & C1_PCLMUL) && !(e & C1_AVX))) return 0;
+	/* the family/model signature is NOT tied to feature bits: hypervisors mask features under any signature (an earlier version
+	 * only admitted the Avoton signature with Avoton's real feature set and so never took the model-specific branch with a
+	 * feature missing) */
+	(void)avoton;
 	return 1;
 }
 /* narrower closure: configurations of parts that actually shipped (severity label only) */
@@ -330,7 +333,7 @@ int main(int argc, char **argv)
 		v_count("asm_functions_using_tzcnt_not_decided", tz_slots);
 		v_note("unexamined features fixed to their co-generational value: SSSE3 with SSE3, POPCNT with SSE4.2, BMI1/BMI2/LZCNT/MOVBE/FMA with AVX2");
 		v_note("tzcnt in pre-BMI1 variants executes as bsf on a CPU without BMI1 (differs only for a zero operand); host has BMI1, so not decided here");
-		v_note("closure = SDM detection rules (45 400 expected); XCR0[7:5] enumerated independently (superset of what XSETBV accepts)");
+		v_note("closure = SDM detection rules on the feature bits, family/model signature free (90 752 expected); XCR0[7:5] enumerated independently (superset of what XSETBV accepts)");
 	}
 	/* ---- invariant 4: agreement. every distinct vector is materialised and the data-plane battery is run under it ---- */
 	for (int j = 0; j < nvecs; j++) {
